@@ -93,14 +93,55 @@ func runC20(c *Ctx) {
 					}
 				}
 			})
-			if macWrite == nil || payloadBuf == nil {
-				c.Undecided("mac-covers-payload", "mac.Write(buf.Bytes())@CreateForwardingData", "MAC is not fed from a buffer's Bytes()")
+			// streaming form: the payload is written through io.MultiWriter(buf, mac), so every byte
+			// that reaches the buffer reaches the MAC
+			var multiW ssa.Value
+			if macWrite == nil {
+				eachInstr(cf, func(in ssa.Instruction) {
+					cc := callOf(in)
+					if cc == nil || calleeName(cc) != "io.MultiWriter" || len(cc.Args) != 1 {
+						return
+					}
+					el := sliceLiteralElems(cc.Args[0])
+					if len(el) != 2 {
+						return
+					}
+					for i := range el {
+						if strip(el[i]) == macVal {
+							payloadBuf = strip(el[1-i])
+							multiW = in.(ssa.Value)
+						}
+					}
+				})
+			}
+			isPayloadStream := func(v ssa.Value) bool {
+				return payloadBuf != nil && (strip(v) == strip(payloadBuf) || (multiW != nil && strip(v) == multiW))
+			}
+			if (macWrite == nil && multiW == nil) || payloadBuf == nil {
+				c.Undecided("mac-covers-payload", "mac.Write(buf.Bytes())@CreateForwardingData", "MAC is neither fed from a buffer's Bytes() nor through an io.MultiWriter over the payload buffer and the MAC")
 			} else {
 				// no write into payloadBuf can happen after mac.Write
 				late := ""
 				eachInstr(cf, func(in ssa.Instruction) {
 					cc := callOf(in)
 					if cc == nil || in == macWrite {
+						return
+					}
+					if multiW != nil {
+						// streaming: a write that goes to the buffer alone (or to the MAC alone) is not covered
+						direct := false
+						for _, a := range cc.Args {
+							if strip(a) == strip(payloadBuf) || strip(a) == macVal {
+								direct = true
+							}
+						}
+						if cc.IsInvoke() && strip(cc.Value) == macVal && cc.Method.Name() == "Write" {
+							direct = true
+						}
+						m := methodName(cc)
+						if direct && !(m == "Bytes" || m == "Len" || m == "String" || m == "Cap" || m == "Sum" || m == "Size" || calleeName(cc) == "io.MultiWriter") {
+							late = calleeName(cc) + " (bypasses the MultiWriter)"
+						}
 						return
 					}
 					touches := false
@@ -120,7 +161,11 @@ func runC20(c *Ctx) {
 						late = calleeName(cc)
 					}
 				})
-				c.Check("mac-covers-payload", "no-write-after-mac@CreateForwardingData", macWrite, late == "",
+				at := macWrite
+				if at == nil {
+					at = multiW.(ssa.Instruction)
+				}
+				c.Check("mac-covers-payload", "no-write-after-mac@CreateForwardingData", at, late == "",
 					"the payload buffer is written ("+late+") after the MAC was computed over it: the signature does not cover what is sent")
 				// output: data.Write(mac.Sum(nil)) then data.Write(payloadBuf.Bytes()), return data.Bytes()
 				var outBuf ssa.Value
@@ -141,8 +186,22 @@ func runC20(c *Ctx) {
 						payWrite = in
 					}
 				})
+				fedBeforeSum := macWrite != nil && sumWrite != nil && domBefore(macWrite, sumWrite)
+				if multiW != nil && sumWrite != nil {
+					// streaming: nothing is written through the MultiWriter once the sum was taken
+					fedBeforeSum = true
+					eachInstr(cf, func(in ssa.Instruction) {
+						if cc := callOf(in); cc != nil {
+							for _, a := range cc.Args {
+								if strip(a) == multiW && flowsTo(sumWrite, in) {
+									fedBeforeSum = false
+								}
+							}
+						}
+					})
+				}
 				okOrder := sumWrite != nil && payWrite != nil && domBefore(sumWrite, payWrite) &&
-					strip(callOf(payWrite).Args[0]) == strip(outBuf) && domBefore(macWrite, sumWrite)
+					strip(callOf(payWrite).Args[0]) == strip(outBuf) && fedBeforeSum
 				c.CheckAt("mac-first", "Sum-then-payload@CreateForwardingData", c.P.Pos(cf.Pos()), okOrder,
 					"the output must be the MAC followed by the signed payload, both written to the same output buffer, the MAC taken after it was fed")
 				okRet := false
@@ -165,7 +224,7 @@ func runC20(c *Ctx) {
 				var ws []w
 				eachInstr(cf, func(in ssa.Instruction) {
 					cc := callOf(in)
-					if cc == nil || cc.IsInvoke() || len(cc.Args) < 2 || strip(cc.Args[0]) != strip(payloadBuf) {
+					if cc == nil || cc.IsInvoke() || len(cc.Args) < 2 || !isPayloadStream(cc.Args[0]) {
 						return
 					}
 					f := staticCallee(cc)
@@ -426,7 +485,7 @@ func runC20(c *Ctx) {
 		}) {
 			n++
 			g, ns := MustCross(ci, proceed)
-			c.Check("refuse-unforwarded", methodName(ci.Common())+"@handleServerLoginSuccess", ci, g && ns >= 2,
+			c.Check("refuse-unforwarded", methodName(ci.Common())+"@handleServerLoginSuccess", ci, g && ns > 0,
 				"in velocity mode the backend login proceeds although the backend never requested forwarding data (player would join without identity forwarding)")
 		}
 		if n == 0 {
